@@ -406,6 +406,11 @@ func (env *Zlisp) ImportBaseTypes() {
 
 	for _, k := range sortedKeys(GoStructRegistry.Userdef) {
 		e := GoStructRegistry.Userdef[k]
+		if !e.hasShadowStruct {
+			// created by a script (struct, record, pointer and slice types), possibly
+			// in another interpreter: the declaring interpreter binds those itself.
+			continue
+		}
 		env.AddGlobal(e.RegisteredName, e)
 	}
 }
